@@ -30,9 +30,12 @@ fn all_ops(s: &str, panics: &Mutex<Vec<Value>>) -> u64 {
     let args = [s.to_string()];
     for p in PROFILES.iter() {
         for op in ["prepare", "enforce"].iter().chain(RULES.iter()) {
-            let r = call_profile(p, op, &args);
-            note(json!([p, op]), &r);
-            calls += 1;
+            // borrowed and owned arguments take different paths through the Cow-returning functions
+            for (kn, kind) in [("str", ArgKind::Str), ("string", ArgKind::Owned)] {
+                let (r, _) = call_profile_full(p, "inst", op, kind, &args);
+                note(json!([p, op, kn]), &r);
+                calls += 1;
+            }
         }
         let r = call_profile(p, "compare", &[s.to_string(), s.to_string()]);
         note(json!([p, "compare"]), &r);
